@@ -38,12 +38,14 @@ def gen_cases(tier, seed):
             # the same z reached with an enormous step and a tiny rate, under ordinary user tolerances (not scaled to lambda)
             cases.append(dict(kind="step", method=name, logz=float(rng.uniform(0, 6)), arg=float(rng.choice([180.0, 135.0, 108.0, 252.0])), hsign=int(rng.choice([-1, 1])),
                               hmag=float(10 ** rng.uniform(1, 16)), dtype="float64", usertol=float(rng.choice([1e-6, 1e-9])), pseed=int(rng.integers(1 << 30)), cost=3))
+        rng_main, rng = rng, rng_for(1102, seed, len(cases))      # (own stream: the cases below keep the random numbers they always had)
         for r in range(max(6, reps // 3)):
             # the library's OWN step controller left in place (rejections by the embedded estimate, retries): whatever step is finally handed back
             # - shortened or not - is a step of the stability function in the requested direction of time
             cases.append(dict(kind="step", method=name, logz=float(rng.uniform(-0.5, 5)), arg=float(rng.choice([180.0, 180.0, 135.0, 225.0, 100.0])), hsign=int(rng.choice([-1, 1, -1])),
                               hmag=float(10 ** rng.uniform(-2, 1)), dtype="float64", usertol=float(rng.choice([1e-6, 1e-8, 1e-10])), own_controller=True,
                               pseed=int(rng.integers(1 << 30)), cost=4))
+        rng = rng_main
         for r in range(reps):
             logz = float(rng.uniform(-3, 8))
             ang = float(rng.choice([180.0, 180.0, 90.0, 270.0, float(rng.uniform(90, 270))]))
